@@ -433,6 +433,21 @@ fn cut_cost(s: &[usize], ax: usize) -> usize {
 fn const_arr(s: &[usize], v: i64) -> String { let n: usize = s.iter().product(); format!("{}:{}", show_list(s), show_list(&vec![v; n])) }
 fn binary_arr(s: &[usize], rng: &mut Rng) -> String { let n: usize = s.iter().product(); format!("{}:{}", show_list(s), show_list(&(0..n).map(|_| rng.below(2) as i64).collect::<Vec<_>>())) }
 
+/// the `v` lines of one array: every operation, every axis, the shifts that matter for a value-dependent shortcut (not congruent
+/// to 0), the three quarter turns over up to four axis pairs, refused calls
+fn gen_value(a: &str, s: &[usize], rng: &mut Rng, out: &mut dyn FnMut(String)) {
+    let nd = s.len(); let n: usize = s.iter().product(); let ni = n as isize;
+    out(format!("v flip {a} none")); out(format!("v flipud {a}")); out(format!("v fliplr {a}"));
+    for i in 0..nd { out(format!("v flip {a} {}", spell(i, nd, i % 2 == 1))); }
+    if nd >= 2 { out(format!("v flip {a} {},0", spell(nd - 1, nd, true))); }
+    for sh in [1, -1, ni + 1, ni / 2] { out(format!("v roll {a} {sh} none")); }
+    for i in 0..nd { let d = s[i] as isize; for (q, sh) in [1, -1, 3 * d + 1].into_iter().enumerate() { out(format!("v roll {a} {sh} {}", spell(i, nd, (q + i) % 2 == 1))); } }
+    if nd >= 2 { out(format!("v roll {a} {},{} 0,{}", rng.range(1, 5), rng.range(-5, -1), spell(nd - 1, nd, true))); out(format!("v roll {a} 1 0,{}", nd - 1)); }
+    out(format!("v roll {a} 1,2 none")); out(format!("v roll {a} 1 {nd}")); out(format!("v flip {a} {}", -(nd as isize) - 1)); out(format!("v roll {a} 1,2,3 0,0"));
+    for (q, (i, j)) in axis_pairs(nd, true).into_iter().enumerate() { for k in [1usize, 2, 3] { out(format!("v rot90 {a} {} {},{}", if q == 1 { k + 4 } else { k }, spell(i, nd, (q + k) % 3 == 1), spell(j, nd, (q + k) % 2 == 1))); } }
+    out(format!("v rot90 {a} 1 0,{nd}")); out(format!("v rot90 {a} 1 0"));
+}
+
 fn gen_part3(thorough: bool, rng: &mut Rng, out: &mut dyn FnMut(String)) {
     // ---- (13) value relations: every operation of the property on arrays whose elements are all `==` without being identical. The
     // `v` prefix makes the harness run every value-relation image of the tag array (f64 / f32 / Tuple2 / List made of 0.0 and -0.0
@@ -440,16 +455,13 @@ fn gen_part3(thorough: bool, rng: &mut Rng, out: &mut dyn FnMut(String)) {
     let mut vs = shapes(1, 3, 1, 3);
     vs.extend([vec![4], vec![5], vec![2, 4], vec![5, 2], vec![1, 7], vec![7, 1], vec![2, 2, 2, 2], vec![1, 2, 1, 3], vec![8, 9], vec![9, 8], vec![2, 3, 4], vec![7, 1, 9], vec![16, 17], vec![3, 4, 5, 2], vec![2, 2, 2, 2, 2]]);
     if thorough { vs.extend(shapes(4, 4, 1, 3)); vs.extend([vec![33, 31], vec![64, 65], vec![100], vec![9, 10, 11], vec![70, 70]]); }
-    for s in &vs {
-        let n: usize = s.iter().product();
-        gen_robust(&tag(s), s, n >= 600, rng, &mut |l| out(format!("v {l}")));
-    }
+    for s in &vs { gen_value(&tag(s), s, rng, out); }
     // constant arrays (one tag everywhere: every image is a constant source; the result must still have the right SHAPE and a
     // refused call must still be refused), 0/1 arrays (few values, long runs), a single odd element first / last
     let mut cs = shapes(1, 2, 1, 3); cs.extend([vec![2, 3, 2], vec![1, 1, 1], vec![3, 1, 2], vec![4, 5], vec![8, 9], vec![2, 2, 2, 2], vec![30]]);
     for s in &cs {
         let n: usize = s.iter().product();
-        for a in [const_arr(s, 0), const_arr(s, 7), binary_arr(s, rng)] { gen_robust(&a, s, false, rng, &mut |l| out(format!("v {l}"))); }
+        for a in [const_arr(s, 0), const_arr(s, 7), binary_arr(s, rng)] { gen_value(&a, s, rng, out); }
         let mut one = vec![0i64; n]; one[n - 1] = 1;
         let a = format!("{}:{}", show_list(s), show_list(&one));
         for sh in [1isize, -1, 2, n as isize + 1] { out(format!("v roll {a} {sh} none")); out(format!("v roll {a} {sh} {}", spell(s.len() - 1, s.len(), sh % 2 == 0))); out(format!("v roll {a} {sh} 0")); }
@@ -481,26 +493,25 @@ fn gen_part3(thorough: bool, rng: &mut Rng, out: &mut dyn FnMut(String)) {
     // asked for where it cuts into at most `lim` blocks; the long axis is then the lane, the flat order, or the transposed side.
     let g = |s: &[usize]| format!("iota:{}", show_list(s));
     let quick: Vec<(Vec<usize>, Vec<&str>)> = vec![
-        (vec![3, 400_001], vec!["rot90 @ 1 1,0", "rot90 @ 5 -2,-1", "rot90 @ 2 0,1", "roll @ 7 1", "flip @ 0"]),
-        (vec![400_001, 3], vec!["rot90 @ 3 0,1", "roll @ -400002 none"]),
-        (vec![1031, 1033], vec!["rot90 @ 1 0,1", "rot90 @ 3 1,0", "flip @ 1,0", "roll @ 3,-5 0,1", "fliplr @"]),
-        (vec![1024, 1025], vec!["rot90 @ 1 0,-1", "roll @ 1 0"]),
-        (vec![1025, 1024], vec!["rot90 @ 3 0,1", "flipud @"]),
-        (vec![1024, 1024], vec!["rot90 @ 7 1,0"]),
+        (vec![3, 400_001], vec!["rot90 @ 5 -2,-1", "rot90 @ 2 0,1", "roll @ 7 1"]),
+        (vec![400_001, 3], vec!["rot90 @ 3 0,1"]),
+        (vec![70, 15_000], vec!["rot90 @ 1 0,1", "fliplr @"]),          // both extents no multiples of 64, both above 64
+        (vec![15_000, 70], vec!["rot90 @ 3 -2,1"]),
+        (vec![64, 16_385], vec!["rot90 @ 1 0,-1", "roll @ 3,-5 0,1"]),  // one extent a multiple of 64
+        (vec![128, 8192], vec!["rot90 @ 5 1,0"]),           // both multiples of 64
         (vec![1 << 20 | 5], vec!["roll @ 70001 0", "flip @ none"]),
         (vec![2_097_153], vec!["roll @ -1 none"]),
-        (vec![600, 2, 1000], vec!["flip @ 1", "roll @ 1 -2", "rot90 @ 1 0,2"]),
-        (vec![2, 3, 174_763], vec!["rot90 @ 1 1,2", "roll @ 1,2,3 0,1,2", "flip @ -1"]),
-        (vec![65, 129, 127], vec!["rot90 @ 3 1,0", "flip @ 0,1"]),
-        (vec![4, 3, 5, 17_477], vec!["rot90 @ 1 0,3", "roll @ -1 2", "flip @ 1,3"]),
-        (vec![33, 32, 31, 33], vec!["rot90 @ 1 1,2", "roll @ 5 1"]),
+        (vec![40, 2, 13_110], vec!["flip @ 1", "rot90 @ 1 0,2"]),
+        (vec![2, 3, 174_763], vec!["rot90 @ 1 1,2", "roll @ 1,2,3 0,1,2"]),
+        (vec![65, 129, 127], vec!["rot90 @ 3 1,0"]),
+        (vec![4, 3, 5, 17_477], vec!["rot90 @ 1 0,3", "flip @ 1,3"]),
     ];
     for (s, calls) in &quick { for c in calls { out(format!("n {}", c.replace('@', &g(s)))); } }
     // a refused call on a giant array directly followed by a valid one
     out(seq(&[format!("n rot90 {} 1 0,2", g(&[3, 400_001])), format!("n roll {} 1 2", g(&[3, 400_001])), format!("n rot90 {} 1 0,1", g(&[3, 400_001]))]));
     if thorough {
         let mut giants = giant_shapes();
-        giants.extend([vec![1024, 1025], vec![1025, 1024], vec![1024, 1024], vec![1088, 1000], vec![2050, 520], vec![100, 10_486], vec![10_486, 100], vec![63, 16_645], vec![1449, 1451], vec![1, 1_048_577], vec![1_048_583, 1],
+        giants.extend([vec![1024, 1025], vec![1025, 1024], vec![1024, 1024], vec![1088, 1000], vec![2050, 520], vec![100, 10_486], vec![10_486, 100], vec![63, 16_645], vec![1449, 1451], vec![70, 15_000], vec![15_000, 70], vec![64, 16_385], vec![16_500, 64], vec![128, 8192], vec![40, 2, 13_110], vec![1, 1_048_577], vec![1_048_583, 1],
                        vec![128, 128, 64], vec![128, 65, 128], vec![4, 3, 5, 17_477], vec![33, 32, 31, 33], vec![2, 2, 2, 131_073], vec![16, 65, 16, 64], vec![3, 5, 7, 11, 13, 73]]);
         let lim = 9000usize;
         for (q, s) in giants.iter().enumerate() {
@@ -757,8 +768,9 @@ fn giant_image<T: ArrayElement>(shape: &[usize], from: impl Fn(i64) -> T) -> Arr
 }
 
 /// `n call iota:<shape> …`: more than 2^20 elements. The native reference runs on the iota tags (so its answer is the source position
-/// of every result position) and the crate's results are compared IN PLACE: the i64 tags on the plain receiver, the u8 image on
-/// `Ok(array)`, and one further image chosen by the case line (12-byte tuples / all-zero f64 with both signs / 3-byte tuples / AllEq).
+/// of every result position) and the crate's results are compared IN PLACE: the i64 tags on the plain receiver and one further image
+/// chosen by the case line (u8 on `Ok(array)` / 12-byte tuples / all-zero f64 with both signs on `Ok(array)` / 3-byte tuples on
+/// `Ok(array)` / AllEq).
 fn exec_giant(op: &str, args: &[&str]) -> Option<Verdict> {
     let shape = parse_usize_list(args.first()?.strip_prefix("iota:")?);
     let n: usize = shape.iter().product();
@@ -771,13 +783,13 @@ fn exec_giant(op: &str, args: &[&str]) -> Option<Verdict> {
         if let Some(m) = run(judge_image($name, r, &want, &$of, &$same)) { return m; }
     }} }
     one!("the i64 tags, plain receiver", false, |k: i64| k, |a: &i64, b: &i64| a == b);
-    one!("the u8 image, call on Ok(array)", true, tag_u8, |a: &u8, b: &u8| a == b);
-    if want.is_ok() { match fnv(&format!("{op} {}", args.join(" "))) % 4 {
-        0 => one!("Tuple3<i32,i32,i32> (12 bytes), plain receiver", false, tag_t3, |a: &T3, b: &T3| a == b),
-        1 => one!("f64 zeros (-0.0 where the position is 3 mod 7), plain receiver", false, |k: i64| zs(k % 7 == 3), |a: &f64, b: &f64| a.to_bits() == b.to_bits()),
-        2 => one!("Tuple3<u8,u8,u8> (3 bytes), call on Ok(array)", true, tag_t3b, |a: &T3b, b: &T3b| a == b),
+    match if want.is_ok() { fnv(&format!("{op} {}", args.join(" "))) % 5 } else { 0 } {
+        0 => one!("the u8 image, call on Ok(array)", true, tag_u8, |a: &u8, b: &u8| a == b),
+        1 => one!("Tuple3<i32,i32,i32> (12 bytes), plain receiver", false, tag_t3, |a: &T3, b: &T3| a == b),
+        2 => one!("f64 zeros (-0.0 where the position is 3 mod 7), call on Ok(array)", true, |k: i64| zs(k % 7 == 3), |a: &f64, b: &f64| a.to_bits() == b.to_bits()),
+        3 => one!("Tuple3<u8,u8,u8> (3 bytes), call on Ok(array)", true, tag_t3b, |a: &T3b, b: &T3b| a == b),
         _ => one!("the user type AllEq (== always true), plain receiver", false, |k: i64| AllEq(k), |a: &AllEq, b: &AllEq| a.0 == b.0),
-    } }
+    }
     Some(Verdict::Match(match &want { Ok((s, _)) => format!("ok native (giant: shape {} compared in place with the harness-native reference)", show_list(s)), Err(()) => "err (giant: refused, as the reference demands)".into() }))
 }
 
@@ -803,11 +815,11 @@ fn exec_call(op: &str, args: &[&str], expected: &str, full: bool) -> Option<Verd
         }
     }
     let v = compare_default(obs, expected);
-    // part 3: the value-relation and layout images of the case (all of them on `v` lines and on one small case in three, two of
-    // them on the other small cases and on half of the cases up to 5000 elements)
+    // part 3: the value-relation and layout images of the case (all of them on `v` lines, on one case in four up to 100 elements and
+    // one in 16 up to 600; the two cheapest on all other cases up to 100 elements, one in four up to 600, one in eight up to 5000)
     if let Verdict::Match(o) = &v {
         let (n, h) = (elems_of(args), fnv(&format!("{op} {}", args.join(" "))));
-        let level = if full { 2 } else if n <= 600 { if h % 3 == 0 { 2 } else { 1 } } else if n <= 5000 && h % 2 == 0 { 1 } else { 0 };
+        let level = if full { 2 } else if n <= 100 { if h % 4 == 0 { 2 } else { 1 } } else if n <= 600 { if h % 16 == 0 { 2 } else if h % 4 == 1 { 1 } else { 0 } } else if n <= 5000 && h % 8 == 0 { 1 } else { 0 };
         if let Some(d) = images(op, args, level) { return Some(Verdict::Mismatch { observed: o.clone(), detail: format!("IMAGE-DIVERGENCE {d}") }); }
     }
     Some(v)
@@ -822,8 +834,8 @@ fn exec_native(args: &[&str], expected: &str) -> Option<Verdict> {
     ORACLE_ONLY.fetch_add(1, Ordering::Relaxed);
     let obs = run_call(op, rest, false)?;
     if obs == want || (class_of(&obs) == "err" && want == "err") {
-        // part 3: one line in two also runs the two cheapest value-relation images (all-zero f64 with one -0.0, AllEq)
-        if fnv(&args.join(" ")) % 2 == 0 { if let Some(d) = images(op, rest, 1) { return Some(Verdict::Mismatch { observed: truncate(&obs, 300), detail: format!("IMAGE-DIVERGENCE {d}") }); } }
+        // part 3: one line in eight also runs the two cheapest value-relation images (all-zero f64 with one -0.0, AllEq)
+        if fnv(&args.join(" ")) % 8 == 0 { if let Some(d) = images(op, rest, 1) { return Some(Verdict::Mismatch { observed: truncate(&obs, 300), detail: format!("IMAGE-DIVERGENCE {d}") }); } }
         return Some(Verdict::Match(format!("ok native ({} bytes as the harness-native reference)", obs.len())));
     }
     Some(Verdict::Mismatch { detail: format!("differs from the harness-native coordinate reference: {}; reference `{}`", diff_detail(&obs, &want), truncate(&want, 300)), observed: truncate(&obs, 1500) })
